@@ -1,6 +1,7 @@
 #!/bin/bash
 # usage: tools/confirm_mutant_delta.sh <worktree> <mutant-dir>     (development aid)
-# Like confirm_mutant.sh, for changes to the second-generation front end: the
+# Like confirm_mutant.sh, for changes to the second-generation front end (set
+# PRISTINE_DELTA to a penne binary built from the unchanged tree with --features delta): the
 # demonstration inputs are run through `penne emit -v` of a pristine and a
 # changed binary built with --features delta.
 WT="$1"; M="$2"
@@ -11,14 +12,14 @@ cd "$WT" || exit 2
 git checkout -q -- . ; git apply --check "$M/patch.diff" || { echo "patch does not apply" | tee -a "$LOG"; exit 1; }
 git apply "$M/patch.diff"
 echo "== files: $(git diff --stat | tail -1)" >> "$LOG"
-CARGO_TARGET_DIR="$WT/target" python3 /tmp/mut/run_tests.py "$WT" >> "$LOG" 2>&1; T=$?
+CARGO_TARGET_DIR="$WT/target" python3 /verif/tools/worktree_tests.py "$WT" >> "$LOG" 2>&1; T=$?
 echo "== tests exit $T" >> "$LOG"
 CARGO_TARGET_DIR="$WT/target/alpha" cargo build -q --offline --features alpha,llvm-sys >> "$LOG" 2>&1; B=$?
 echo "== alpha build exit $B" >> "$LOG"
 CARGO_TARGET_DIR="$WT/target/delta" cargo build -q --offline --features delta >> "$LOG" 2>&1
 D=0
 for f in $(find "$M/demo" -name '*.pn' | sort); do
-	P=$(cd "$(dirname "$f")" && timeout 60 /tmp/mut/pristine-delta/debug/penne emit -v --color never --arrows ascii "$(basename "$f")" 2>&1 | grep -v "^\s*[0-9]*: \|at src/\|RUST_BACKTRACE" | head -400)
+	P=$(cd "$(dirname "$f")" && timeout 60 ${PRISTINE_DELTA:-/tmp/mut/pristine-delta/debug/penne} emit -v --color never --arrows ascii "$(basename "$f")" 2>&1 | grep -v "^\s*[0-9]*: \|at src/\|RUST_BACKTRACE" | head -400)
 	Q=$(cd "$(dirname "$f")" && timeout 60 "$WT/target/delta/debug/penne" emit -v --color never --arrows ascii "$(basename "$f")" 2>&1 | grep -v "^\s*[0-9]*: \|at src/\|RUST_BACKTRACE" | head -400)
 	if [ "$P" != "$Q" ]; then
 		D=$((D+1))
